@@ -143,6 +143,8 @@ pub struct Viol {
     pub clause: String,
     pub detail: String,
     pub kf: Option<String>,
+    /// a more precise case to record for replay (e.g. the exact schedule instead of the explored subtree)
+    pub case: Option<Case>,
 }
 
 /// Per-worker context handed to the checks
@@ -231,6 +233,16 @@ impl Cx {
             clause: clause.to_string(),
             detail,
             kf: None,
+            case: None,
+        });
+    }
+    /// a violation whose replay file should hold `case` (a narrowed form of the explored case)
+    pub fn fail_case(&mut self, clause: &str, detail: String, case: Case) {
+        self.viols.push(Viol {
+            clause: clause.to_string(),
+            detail,
+            kf: None,
+            case: Some(case),
         });
     }
     /// a violation that matches the narrow predicate of known finding `kf`
@@ -239,6 +251,7 @@ impl Cx {
             clause: clause.to_string(),
             detail,
             kf: Some(kf.to_string()),
+            case: None,
         });
     }
     pub fn tally(&mut self, key: &str) {
@@ -501,8 +514,9 @@ pub fn worker(prop: &dyn Prop, tier: Tier, seed: u64, k: u64, n: u64, from_scope
                             Some((c, d)) => (Some(c.to_json()), Some(d)),
                             None => (None, None),
                         };
+                        let rec_case = v.case.as_ref().unwrap_or(&case);
                         emit(json!({"t":"v","clause":v.clause,"detail":v.detail,"kf":v.kf,
-                            "scope":scope_name,"idx":i,"case":case.to_json(),
+                            "scope":scope_name,"idx":i,"case":rec_case.to_json(),
                             "shrunk": sh_case, "shrunk_detail": sh_detail}));
                     }
                 }
